@@ -35,6 +35,40 @@ M = [
     # ---- C05
     ("C05-equal-ignores-y", ["C05", "C10"], "element.go", "return int(x1z2.Equals(x2z1) & y1z2.Equals(y2z1))", "return int(x1z2.Equals(x2z1) & (y1z2.Equals(y2z1) | 1))"),
     ("C05-equal-ignores-x", ["C05", "C10"], "element.go", "return int(x1z2.Equals(x2z1) & y1z2.Equals(y2z1))", "return int((x1z2.Equals(x2z1) | 1) & y1z2.Equals(y2z1))"),
+    # ---- C19
+    ("C19-skip-leading-zero-bits", ["C19"], "element.go",
+     "\tfor i := 255; i >= 0; i-- {\n\t\tif bits[i] == 0 {", "\ttop := 255\n\tfor top > 0 && bits[top] == 0 {\n\t\ttop--\n\t}\n\n\tfor i := top; i >= 0; i-- {\n\t\tif bits[i] == 0 {"),
+    ("C19-early-return-for-zero", ["C19"], "element.go",
+     "\tif s.IsOne() {\n\t\treturn e\n\t}\n", "\tif s.IsOne() {\n\t\treturn e\n\t}\n\n\tif s.IsZero() {\n\t\treturn e.Identity()\n\t}\n"),
+    ("C19-identity-fast-path-in-ladder", ["C19"], "element.go",
+     "\t\tif bits[i] == 0 {\n\t\t\tr1.Add(r0)\n\t\t\tr0.Double()", "\t\tif bits[i] == 0 {\n\t\t\tr1.Add(r0)\n\t\t\tif !r0.IsIdentity() {\n\t\t\t\tr0.Double()\n\t\t\t}"),
+    # ---- C18
+    ("C18-no-retry-on-zero", ["C18"], "scalar.go",
+     "\tfor scalar.IsFEZero(&m) == 1 {\n\t\t_, err := io.ReadFull(rand.Reader, buf[:])", "\tfor first := true; first; first = false {\n\t\t_, err := io.ReadFull(rand.Reader, buf[:])"),
+    ("C18-ignore-read-error", ["C18"], "scalar.go",
+     "\t\tif err != nil {\n\t\t\tpanic(err)\n\t\t}\n\n\t\tnm := scalar.BytesToNonMontgomery(buf)", "\t\tif err != nil && err != io.ErrUnexpectedEOF {\n\t\t\tpanic(err)\n\t\t}\n\n\t\tnm := scalar.BytesToNonMontgomery(buf)"),
+    ("C18-no-reduce", ["C18"], "scalar.go", "\t\t_ = scalar.Reduce(nm)\n", "\t\tif scalar.Reduce(nm) == 0 {\n\t\t\tcontinue\n\t\t}\n"),
+    # ---- C06 / C07 / C12 / C09 / C08 / C11
+    ("C06-multiply-nil-noop", ["C06"], "scalar.go", "\tif t == nil {\n\t\treturn s.Zero()\n\t}\n\n\tscalar.Mul(&s.S, &s.S, &t.S)", "\tif t == nil {\n\t\treturn s\n\t}\n\n\tscalar.Mul(&s.S, &s.S, &t.S)"),
+    ("C06-minusone-constant-off", ["C06"], "scalar.go", "\ts.S[2] = 18446744073709551613", "\ts.S[2] = 18446744073709551612"),
+    ("C06-pow-exponent-one-of-zero-base", ["C06"], "scalar.go", "\tif t.IsOne() {\n\t\treturn s\n\t}", "\tif t.IsOne() || s.IsZero() {\n\t\treturn s\n\t}"),
+    ("C07-decode-accepts-n", ["C07"], "internal/scalar/scalar.go",
+     "\txMinP[0], borrow = bits.Sub64(x[0], order[0], borrow)", "\txMinP[0], borrow = bits.Sub64(x[0], order[0]+1, borrow)"),
+    ("C07-reduce-ignores-low-limb", ["C07", "C18"], "internal/scalar/scalar.go",
+     "\txMinP[0], borrow = bits.Sub64(x[0], order[0], borrow)", "\txMinP[0], borrow = bits.Sub64(x[0]|1, order[0], borrow)"),
+    ("C09-two192-constant", ["C09"], "internal/scalar/scalar.go", "\t\t10328527898029845308,\n\t\t10739309058364017386,", "\t\t10328527898029845309,\n\t\t10739309058364017386,"),
+    ("C09-expander-length-32", ["C09"], "group.go", "uniform := expandXMD(input, dst, uint(secLength))\n\ts := NewScalar()", "uniform := append(expandXMD(input, dst, 32), make([]byte, 16)...)\n\ts := NewScalar()"),
+    ("C08-oversize-prefix-misspelt", ["C08", "C09"], "xmd.go", 'dstLongPrefix        = "H2C-OVERSIZE-DST-"', 'dstLongPrefix        = "H2C-OVERSIZED-DST-"'),
+    ("C08-oversize-threshold-256", ["C08", "C09"], "xmd.go", "dstMaxLength         = 255", "dstMaxLength         = 256"),
+    ("C08-u1-from-first-bytes", ["C08"], "group.go", "u1 := field.New().HashToFieldElement([secLength]byte(uniform[secLength : 2*secLength]))", "u1 := field.New().HashToFieldElement([secLength]byte(uniform[secLength-1 : 2*secLength-1]))"),
+    ("C11-sign-fixup-inverted-on-exceptional-branch", ["C11"], "mapping.go", "\ty.CMove(e1, y1, y) //    24.   y = CMOV(-y, y, e1),", "\ty.CMove(e1^tv2Zero, y1, y) //    24.   y = CMOV(-y, y, e1),"),
+    ("C11-exceptional-branch-wrong-constant", ["C11"], "mapping.go", "tv4 := field.New().CMove(tv2Zero, tv2, z)", "tv4 := field.New().CMove(tv2Zero, tv2, isoB)"),
+    ("C12-equals-ignores-limb3", ["C12"], "internal/field/element.go", "\tres |= e.E[3] ^ u.E[3]\n", ""),
+    ("C12-reduce-top-limb-mask", ["C12", "C03"], "internal/field/element.go", "\tx[3] = (xMinP[3] & ^mask) | (x[3] & mask)", "\tx[3] = (xMinP[3] & mask) | (x[3] & ^mask)"),
+    ("C12-wide-reduction-constant", ["C12", "C08"], "internal/field/element.go", "two192 = &MontgomeryDomainFieldElement{0, 0, 0, 4294968273}", "two192 = &MontgomeryDomainFieldElement{0, 0, 0, 4294968272}"),
+    # ---- C15 / C16
+    ("C15-order-returns-package-slice", ["C15"], "group.go",
+     "func Order() []byte {", "var orderBytes = orderFresh()\n\n// Order returns the order of the canonical group of scalars.\nfunc Order() []byte { return orderBytes }\n\nfunc orderFresh() []byte {"),
     # ---- C10
     ("C10-copy-returns-receiver", ["C10"], "element.go", "func (e *Element) Copy() *Element {\n\treturn e.copy()", "func (e *Element) Copy() *Element {\n\treturn e"),
     ("C10-newelement-shares-identity", ["C10", "C16"], "element.go", "func newElement() *Element {\n\treturn newEmptyElement().set(&identity)", "func newElement() *Element {\n\treturn &identity"),
